@@ -6,9 +6,28 @@ _DOM = {"c08": "pair/stable STDP: sampled 1x1 histories of length 4 (all 256 pai
         "c09": "every trainer step of the C08 sweep: parts handed to the updater are >= 0; LinearHomeostasis on weight/bias/delay with the rate above and below target"}
 
 
+def _routing(seed):
+    """pos goes through the upper bound and neg through the lower bound when the accumulated update is applied (real
+    Accumulator with half and full bounds): shares the C10 sequence oracle"""
+    from . import c10
+
+    out, n = [], 0
+    for s in range(25):
+        for bound in (None, "mult", "full_sharp"):
+            n += 1
+            f = c10.run_sequence(seed * 7919 + s, bound=bound)
+            if f is not None:
+                f = dict(f, what="C09/routing/" + f["what"].split("/", 1)[-1])
+                if not any(x["what"] == f["what"] for x in out):
+                    out.append(f)
+    return out, n
+
+
 def sweep(tier="quick", seed=0, unsupported=()):
     f, n = tr.sweep_c09(tier, seed)
     f = [x for x in f if x["what"].startswith("C09/")]
+    f2, n2 = _routing(seed)
+    f, n = f + f2, n + n2
     return {"standins": [{"function": "real trainers on real cells vs brute-force sums over spike times", "domain": _DOM["c09"], "cases": n, "proved": False, "label": "bounded"}], "failures": f}
 
 
